@@ -1,9 +1,10 @@
 import PyrollModel.Lifecycle
+import PyrollModel.LifecycleCopy
 import PyrollModel.Proto
 open Proto
 
 /-! Line-protocol driver of the life-cycle model (C02); one op per line in, one line out:
-`<result> | <invocation trace of this op> | <dump of every instance>`. -/
+`<result> | <invocation trace of this op> | <dump of every instance> | act:<executing marks key@instance> | roots:<root list>`. -/
 
 namespace Life
 
@@ -20,6 +21,8 @@ def parseBody : List String → Option Body
   | ["none"] => some .none
   | ["read", m, k, c] => do pure (.read (← nat? m) (← int? k) (← int? c))
   | ["try", m, k, c] => do pure (.tryRead (← nat? m) (← int? k) (← int? c))
+  | ["cread", m, k, c] => do pure (.cread (← nat? m) (← int? k) (← int? c))
+  | ["ctry", m, k, c] => do pure (.ctry (← nat? m) (← int? k) (← int? c))
   | _ => none
 
 def parsePyVal (s : String) : Option PyVal :=
@@ -38,8 +41,29 @@ def parseRoots (s : String) : Option (List (Cls × Name)) :=
     | [c, n] => do pure ((← nat? c), (← nat? n))
     | _ => none
 
+def parsePair (s : String) : Option (Cls × Name) :=
+  match s.splitOn ":" with
+  | [c, n] => do pure ((← nat? c), (← nat? n))
+  | _ => none
+
+/-- the store flag of a registration: `first` = tryfirst, `last` = trylast -/
+def parseTier (s : String) : Option (Bool × Bool) :=
+  if s = "first" then some (true, false) else if s = "normal" then some (false, false)
+  else if s = "last" then some (false, true) else none
+
 def parseOp (t : List String) : Option Op :=
   match t with
+  -- `reg key fn cls hook body tier via`: a registration of function `fn` (new or registered before) under the new
+  -- registration key; `via` = the API used on the real object (add_function / decorator call / with block / handing in
+  -- the HookFunction of an earlier registration) - the same `add_function` for the model
+  | ["reg", key, fn, c, n, b, tier, _via] => do
+    let (first, last) ← parseTier tier
+    pure (.addReg (← nat? key) (← nat? fn) (← nat? c) (← nat? n) (← parseBody (b.splitOn ":")) first last)
+  | ["exit", key] => do pure (.removeImpl (← nat? key))          -- leaving the `with` block: `remove_function(self)`
+  | ["radd", e] => do pure (.rootAdd (← parsePair e))
+  | ["rbefore", p, e] => do pure (.rootInsertBefore (← parsePair p) (← parsePair e))
+  | ["rafter", p, e] => do pure (.rootInsertAfter (← parsePair p) (← parsePair e))
+  | ["rremove", e] => do pure (.rootRemoveLast (← parsePair e))
   | ["class", c, mro] => do pure (.defClass (← nat? c) (← natList? mro))
   | ["inst", c] => do pure (.newInst (← nat? c))
   | ["read", i, n] => do pure (.read (← nat? i) (← nat? n))
@@ -73,6 +97,8 @@ def showBody : Body → String
   | .none => "none"
   | .read m k c => s!"read:{m}:{k}:{c}"
   | .tryRead m k c => s!"try:{m}:{k}:{c}"
+  | .cread m k c => s!"cread:{m}:{k}:{c}"
+  | .ctry m k c => s!"ctry:{m}:{k}:{c}"
 
 def showPyVal : PyVal → String
   | .plain v => s!"p:{showVal v}"
@@ -93,6 +119,7 @@ def commaOr (l : List String) : String := if l.isEmpty then "-" else ",".interca
 
 def showOut : Out → String
   | .ok => "ok"
+  | .valueErr => "ValueError"
   | .res r => showRes r
   | .flag true => "True"
   | .flag false => "False"
@@ -107,22 +134,84 @@ def showObj (o : Obj) : String :=
 def dump (st : State) : String :=
   " ".intercalate ((List.range st.n).map fun i => showObj (st.obj i))
 
+def showMarks (st : State) : String := commaOr (st.active.map fun e => s!"{e.1}@{e.2}")
+
+def showRoots (st : State) : String := commaOr (st.roots.map fun e => s!"{e.1}:{e.2}")
+
 def handle (st : State) (line : String) : State × String :=
   match toks line with
   | ["reset"] => (init, "ok")
   | t => match parseOp t with
     | some op =>
       let (st', o) := step fuelDefault st op
-      (st', s!"{showOut o} | {commaOr (st'.trace.map toString)} | {dump st'}")
+      (st', s!"{showOut o} | {commaOr (st'.trace.map toString)} | {dump st'} | act:{showMarks st'} | roots:{showRoots st'}")
     | none => (st, "bad-op")
 
-partial def loop (h : IO.FS.Stream) (st : State) : IO Unit := do
+end Life
+
+/-! the shallow-copy model (`PyrollModel/LifecycleCopy.lean`): histories between `reset-copy` and the next `reset`;
+one line out per op: `<result> | <hosts: explicit values @ dictionary object> | <dictionary objects>` -/
+namespace LifeCopy
+
+def parseOp : List String → Option Op
+  | ["new"] => some .new
+  | ["copy", i] => do pure (.copy (← nat? i))
+  | ["assign", i, n, v] => do pure (.assign (← nat? i) (← nat? n) (← int? v))
+  | ["delete", i, n] => do pure (.delete (← nat? i) (← nat? n))
+  | ["read", i, n] => do pure (.read (← nat? i) (← nat? n))
+  | ["clear", i] => do pure (.clear (← nat? i))
+  | ["rebind", i] => do pure (.rebind (← nat? i))
+  | ["impl", n, "N"] => do pure (.setImpl (← nat? n) none)
+  | ["impl", n, v] => do pure (.setImpl (← nat? n) (some (← int? v)))
+  | _ => none
+
+def showOut : Out → String
+  | .ok => "ok"
+  | .val v => s!"val:{v}"
+  | .attrErr => "AttributeError"
+
+def showEntries (l : List (Name × Int)) : String := Life.commaOr (l.map fun e => s!"{e.1}={e.2}")
+
+def dump (w : World) : String :=
+  let hs := (List.range w.nHosts).map fun i =>
+    s!"h{i}:[{showEntries (w.host i).dict}]@{match (w.host i).cache with | some r => toString r | none => "_"}"
+  let ds := (List.range w.nDicts).map fun r => s!"s{r}:[{showEntries (w.store r)}]"
+  s!"{" ".intercalate hs} | {" ".intercalate ds}"
+
+def handle (w : World) (t : List String) : World × String :=
+  match parseOp t with
+  | some op => let (w', o) := step w op; (w', s!"{showOut o} | {dump w'}")
+  | none => (w, "bad-op")
+
+end LifeCopy
+
+namespace Life
+
+/-- both models behind one driver process: `reset` starts a life-cycle history, `reset-copy` a shallow-copy history -/
+structure DState where
+  life : State
+  copy : LifeCopy.World
+  inCopy : Bool
+
+partial def loop (h : IO.FS.Stream) (d : DState) : IO Unit := do
   let line ← h.getLine
   if line.isEmpty then return ()
-  let (st', out) := handle st (line.trimAscii.toString)
-  IO.println out
-  loop h st'
+  let l := line.trimAscii.toString
+  if l = "reset-copy" then
+    IO.println "ok"
+    loop h { d with copy := LifeCopy.init, inCopy := true }
+  else if l = "reset" then
+    IO.println "ok"
+    loop h { d with life := init, inCopy := false }
+  else if d.inCopy then
+    let (w', out) := LifeCopy.handle d.copy (toks l)
+    IO.println out
+    loop h { d with copy := w' }
+  else
+    let (st', out) := handle d.life l
+    IO.println out
+    loop h { d with life := st' }
 
-def main : IO Unit := do loop (← IO.getStdin) init
+def main : IO Unit := do loop (← IO.getStdin) { life := init, copy := LifeCopy.init, inCopy := false }
 
 end Life
